@@ -1,10 +1,44 @@
 (** C04 — A validated molecule is complete, consistent and a fixed point of validation.
-    Property theorems only; each is closed by [exact] of a lemma from Proofs/MolRec.v.
-    Model: Model/MolRec.v ([from_arrays] = qcelemental.molparse.from_arrays, domain "qm"), built on
-    Model/Nucleus.v (C06) and Model/ChgMult.v (C05); coordinates, masses and tolerances are exact rationals. *)
+    Property theorems only; each is closed by [exact] of a lemma from Proofs/MolRec.v or Proofs/MolSchema.v.
+    Models: Model/MolRec.v ([from_arrays] = qcelemental.molparse.from_arrays, domain "qm"), built on Model/Nucleus.v (C06)
+    and Model/ChgMult.v (C05); Model/MolSchema.v ([from_schema] incl. contiguize_from_fragment_pattern, [to_schema],
+    the fragment bookkeeping of Molecule.__init__).  Coordinates, masses and tolerances are exact rationals.
+
+    CLAUSE MAP (statement of C04 in properties.jsonl, clause by clause)
+    1. "whenever building succeeds from raw arrays": every per-atom field present with the same length; three
+       coordinates per atom; symbol / Z / A / mass consistent with each other and the table; no two atoms closer than
+       the threshold; fragments partition the atoms in order; total charge = sum of fragment charges; every
+       charge-multiplicity pair feasible        -> C04_accepted_invariants (all inputs, any number of atoms/fragments),
+                                                    C04_split_partition (np.split semantics).
+    2. "... from a QCSchema dictionary"         -> C04_from_schema_is_from_arrays (an accepted dictionary IS from_arrays on
+       the untouched arrays, separators = cumulative fragment sizes), C04_from_schema_accepted_invariants (so clause 1
+       holds of it), C04_contiguize_accepts / C04_contiguize_partition (every accepted pattern lists 0..nat-1 in
+       order — the full statement since the repair 2b49794 of the fixed finding C04-single-fragment-offset, whose
+       failing inputs stay in the schema corpus and as C04_ex_old_failing_inputs_refused; arrays never reordered).
+    3. "... as a Molecule model with validation on": Molecule.__init__ calls from_schema on its keywords (clause 2);
+       of its own logic only the fragment bookkeeping is modelled -> C04_molecule_fragments_partition (the object's
+       .fragments list 0..nat-1 in order; full since 2b49794).
+       Other attributes (masses / mass_numbers / real / labels after _filter_defaults, title-casing, 8-decimal rounding):
+       ONLY correspondence / oracle on the implementation (known finding C04-molecule-allclose-mass-number lives there).
+    4. "passing a validated molecule through validation again returns the same molecule"
+                                                -> C04_idempotent (from_arrays, 0 <= mtol <= 1/4).  Through
+       from_schema(to_schema(.)) and Molecule: ONLY correspondence (stream schema_roundtrip runs the Coq model of
+       from_schema o to_schema against the implementation on accepted Bohr records, dtype 1 and 2) — no theorem yet.
+    5. "inputs for which no such record exists are refused with a validation error, never silently repaired":
+       mismatched lengths -> C04_rejects_column_length, C04_rejects_geom_not_3n, C04_rejects_fragment_lengths;
+       overlapping atoms -> C04_rejects_too_close; unknown units -> C04_rejects_unknown_units, C04_rejects_units_factor;
+       empty or unsorted fragments -> C04_rejects_bad_split, C04_rejects_fragment_data_without_separators;
+       contradictory nuclear data -> C04_rejects_conflicting_nuclear_data; no geometry -> C04_rejects_no_geometry;
+       unrecognised schema -> C04_from_schema_rejects_unknown_schema.
+       Error CLASS: C04_refusal_classes (from_arrays: only ValidationError / NotAnElementError — the latter exactly
+       where C06 raises it, for names that are not in the table), C04_from_schema_refusal_classes (the same two and nothing
+       else — full since the repair 361a5b1 of the fixed finding C04-empty-fragment-list-indexerror).  The C04_rejects_* lemmas about from_arrays conclude "<> Ok"; together with
+       C04_refusal_classes that is "ValidationError or NotAnElementError".
+    Quantifier: "0-12 atoms" -> theorems hold for any number of atoms; "through all three entry points" -> theorems
+    for from_arrays and from_schema, Molecule glue partly (clause 3). *)
 From Coq Require Import ZArith List Bool String QArith Qabs.
-Require Import QV.Common.Outcome QV.Model.Nucleus QV.Model.ChgMult QV.Gen.MolConsts QV.Model.MolRec.
-Require Import QV.Proofs.Nucleus QV.Proofs.ChgMult QV.Proofs.MolRec.
+Require Import QV.Common.Outcome QV.Model.Nucleus QV.Model.ChgMult QV.Gen.MolConsts QV.Model.MolRec QV.Model.MolSchema.
+Require Import QV.Proofs.Nucleus QV.Proofs.ChgMult QV.Proofs.MolRec QV.Proofs.MolSchema.
 Import ListNotations.
 Open Scope Z_scope.
 
@@ -94,6 +128,73 @@ Proof.
   right. destruct C as [-> | ->]; auto.
 Qed.
 
+
+(** ------------------------------------------------------------------------------------------------------------
+    The QCSchema entry point.  contiguize_from_fragment_pattern (throw_reorder=True), for EVERY fragment pattern and
+    every set of arrays: if it accepts, the pattern lists 0 .. nat-1 in order (slow path: tested; fast path: a single
+    ascending run of consecutive indices starting at 0), the geometry and every column come back exactly as they went
+    in (the fancy-index reordering is the identity), the geometry has one row per index named and the separators are
+    the cumulative fragment sizes. *)
+Theorem C04_contiguize_accepts :
+  forall pat g ea ez ee em er el c, contiguize pat g ea ez ee em er el = Ok c ->
+    List.concat pat = zseq (total_atoms pat) /\
+    c_geom c = g /\ c_elea c = ea /\ c_elez c = ez /\ c_elem c = ee /\ c_mass c = em /\ c_real c = er /\ c_elbl c = el /\
+    c_seps c = cum_seps pat /\
+    exists pts, triples g = Ok pts /\ Z.of_nat (List.length pts) = total_atoms pat.
+Proof. exact contiguize_accepts. Qed.
+
+(** Every accepted fragment pattern partitions the atoms in order (full statement; was _refuted before 2b49794). *)
+Theorem C04_contiguize_partition :
+  forall pat g ea ez ee em er el c, contiguize pat g ea ez ee em er el = Ok c -> List.concat pat = zseq (total_atoms pat).
+Proof. exact contiguize_partition. Qed.
+
+(** An accepted schema dictionary is from_arrays applied to the dictionary's own arrays (units Bohr, labels as user
+    tags, default tooclose / mtol / zero_ghost_fragments from the source) with the cumulative fragment sizes as
+    separators; its fragment pattern lists the atoms in order and the record has one atom per index named. *)
+Theorem C04_from_schema_is_from_arrays :
+  forall s np m, from_schema s np = Ok m ->
+    sniff s = Ok tt /\ from_arrays (schema_arrays s np) = Ok m /\
+    List.concat (frag_pattern s) = zseq (total_atoms (frag_pattern s)) /\
+    Z.of_nat (List.length (m_elem m)) = total_atoms (frag_pattern s).
+Proof. exact from_schema_is_from_arrays. Qed.
+
+(** ... hence the invariants of C04_accepted_invariants hold of every record from_schema returns. *)
+Theorem C04_from_schema_accepted_invariants :
+  forall s np m, from_schema s np = Ok m -> exists pts ros ats, WF (schema_arrays s np) m pts ros ats.
+Proof. exact from_schema_accepted_invariants. Qed.
+
+Theorem C04_from_schema_rejects_unknown_schema : forall s np, sniff s = Err Validation -> from_schema s np = Err Validation.
+Proof. exact from_schema_rejects_unknown_schema. Qed.
+
+(** from_schema raises ValidationError or NotAnElementError and nothing else (full statement since 361a5b1). *)
+Theorem C04_from_schema_refusal_classes :
+  forall s np, (exists m, from_schema s np = Ok m) \/ from_schema s np = Err Validation \/ from_schema s np = Err NotAnElement.
+Proof. exact from_schema_refusal_classes. Qed.
+
+(** The fragment list of a validated Molecule object lists 0 .. nat-1 in order (after _filter_defaults and the keyword
+    merge; full statement, was _refuted before 2b49794). *)
+Theorem C04_molecule_fragments_partition :
+  forall s np m, from_schema s np = Ok m -> List.concat (molecule_fragments s m) = zseq (Z.of_nat (List.length (m_elem m))).
+Proof. exact molecule_fragments_partition. Qed.
+
+(** regression witnesses: the failing inputs of the two fixed findings are refused with ValidationError *)
+Example C04_ex_old_failing_inputs_refused :
+  from_schema (ex_two_atoms []) false = Err Validation /\ from_schema (ex_two_atoms [[5; 6]]) false = Err Validation /\
+  from_schema (ex_two_atoms [[1; 2]]) false = Err Validation /\ from_schema (ex_two_atoms [[-1; 0]]) false = Err Validation.
+Proof. exact from_schema_old_failing_inputs_refused. Qed.
+
+(** Non-vacuity for the schema theorems: He / Li+ as two fragments, accepted; the record's separators are [1]. *)
+Definition ex_schema : schema :=
+  {| sc_name := Some "qcschema_molecule"%string; sc_version := Some 2; sc_symbols := ["He"; "li"]%string; sc_geom := [0; 0; 0; 0; 0; 3]%Q;
+     sc_elea := None; sc_elez := None; sc_mass := None; sc_real := None; sc_elbl := None; sc_frags := Some [[0]; [1]];
+     sc_fchg := Some [Some 0; Some 1]; sc_fmult := None; sc_chg := None; sc_mult := None; sc_fix_com := None;
+     sc_fix_orientation := None; sc_fix_symmetry := None; sc_conn := None |}.
+Example C04_ex_schema_accept :
+  match from_schema ex_schema false with
+  | Ok m => m_seps m = [1] /\ m_chg m = 1 /\ m_elem m = ["He"; "Li"]%string /\ molecule_fragments ex_schema m = [[0]; [1]]
+  | Err _ => False end.
+Proof. vm_compute. repeat split. Qed.
+
 (** regression witness: the old failing input geom=[0,0,0,1], elez=[1] *)
 Definition ex_bad_geom : raw :=
   {| r_geom := [0; 0; 0; 1]%Q; r_elea := None; r_elez := Some [Some 1]; r_elem := None; r_mass := None; r_real := None;
@@ -144,3 +245,10 @@ Print Assumptions C04_rejects_fragment_lengths.
 Print Assumptions C04_rejects_fragment_data_without_separators.
 Print Assumptions C04_rejects_conflicting_nuclear_data.
 Print Assumptions C04_refusal_classes.
+Print Assumptions C04_contiguize_accepts.
+Print Assumptions C04_contiguize_partition.
+Print Assumptions C04_from_schema_is_from_arrays.
+Print Assumptions C04_from_schema_accepted_invariants.
+Print Assumptions C04_from_schema_rejects_unknown_schema.
+Print Assumptions C04_from_schema_refusal_classes.
+Print Assumptions C04_molecule_fragments_partition.
